@@ -21,7 +21,9 @@ RULE = (
     "force_ai_planning_reader (a rejection is counted; an accepted text is held to the same standard); original and re-read "
     "problem are bisimulated under get_pddl_name to depth 2 (quick) / 3: objects, initial state, applicability and "
     "successors of every ground action in every reachable state, goal verdicts.  Plans (valid and mutated) written by "
-    "get_plan parse back to the same instances and have the same validity on the re-read problem.  Non-trivial = problem "
+    "get_plan parse back to the same instances and have the same validity on the re-read problem; time-triggered plans over "
+    "temporal problems (durative and instantaneous steps, dyadic start times and durations) written by get_plan parse back "
+    "to the same timed instances.  Non-trivial = problem "
     "with a renamed item, a non-commutative numeric expression or a quantifier / conditional effect, and >= 2 reachable "
     "states; distinct by hash of the spec."
 )
@@ -31,6 +33,7 @@ NAMES = ["Loc", "loc", "LOC", "at", "and", "start", "end", "Move", "move", "1x",
 PROFILE = gen.Profile(
     ifuns=False, undefined=False, bounded=False, invariants=False, fluent_kinds=["bool", "bool", "int", "real"], nested_fluent_args=False,
     names={"*": NAMES}, max_objects=3, max_fluents=4, division=True, real_consts=True, decimal_only=True,
+    param_name_pool=["x", "X", "y", "p0", "loc", "at"],
 )
 
 
@@ -148,6 +151,80 @@ def check(ctx, case):
                 ctx.nontriv(spec)
 
 
+TPROFILE = gen.Profile(
+    ifuns=False, bounded=False, invariants=False, undefined=False, max_fluents=3, max_objects=3, max_arity=1, quantifiers=False,
+    nested_fluent_args=False, forall_effects=False, division=False, temporal_delays=False, timed_items=False,
+    names={"*": NAMES}, fluent_kinds=["bool", "bool", "int"],
+)
+
+
+@st.composite
+def tt_cases(draw):
+    g = gen.TGen(draw, TPROFILE)
+    p = g.temporal_problem()
+    if not any("dur" not in a for a in p["actions"]):
+        p["actions"].append(g.gen_action(9))  # always an instantaneous action next to the durative ones
+    # dyadic times: written as decimals and read back exactly
+    t = st.sampled_from([0, 1, "1/2", "3/2", 2, "1/4", 5, "13/4"])
+    d = st.sampled_from([1, 2, "1/2", "3/2", 5, "1/4"])
+    steps = draw(st.lists(st.tuples(st.integers(0, 20), st.integers(0, 50), t, d), min_size=1, max_size=5))
+    return {"tproblem": p, "ttplan": [list(x) for x in steps]}
+
+
+def check_tt_plan(ctx, case):
+    """time-triggered plan text round trip: get_plan -> parse_plan_string gives back the same timed instances"""
+    from fractions import Fraction
+
+    from harness.build import build, frac
+    from unified_planning.io import PDDLReader, PDDLWriter
+    from unified_planning.model import DurativeAction
+    from unified_planning.plans import ActionInstance, TimeTriggeredPlan
+
+    b = build(case["tproblem"])
+    problem, em = b.problem, b.em
+    acts = list(problem.actions)
+    tas = []
+    for ai_, k, start, dur in case["ttplan"]:
+        a = acts[ai_ % len(acts)]
+        args = []
+        for q in a.parameters:
+            if not q.type.is_user_type():
+                args = None
+                break
+            objs = list(problem.objects(q.type))
+            if not objs:
+                args = None
+                break
+            args.append(em.ObjectExp(objs[k % len(objs)]))
+            k //= len(objs)
+        if args is None:
+            continue
+        tas.append((frac(start), ActionInstance(a, tuple(args)), frac(dur) if isinstance(a, DurativeAction) else None))
+    if not tas:
+        raise Abstain("no-groundable-step")
+    plan = TimeTriggeredPlan(tas, b.env)
+    w = PDDLWriter(problem)
+    try:
+        w.get_domain()
+        w.get_problem()
+    except Exception:
+        ctx.cls("tt:domain-not-writable")  # the problem text is not the subject here; names are assigned lazily anyway
+    try:
+        text = w.get_plan(plan)
+        back = PDDLReader(environment=b.env).parse_plan_string(problem, text, w.get_item_named)
+    except Exception as e:
+        raise Violation(f"tt-plan-round-trip-exception:{type(e).__name__}", f"{e!r} on plan {plan}", case)
+    want = sorted((str(s), ai.action.name, tuple(str(x) for x in ai.actual_parameters), None if d is None else str(d)) for s, ai, d in plan.timed_actions)
+    got = sorted((str(Fraction(s)), ai.action.name, tuple(str(x) for x in ai.actual_parameters), None if d is None else str(Fraction(d))) for s, ai, d in getattr(back, "timed_actions", []))
+    if want != got:
+        raise Violation("tt-plan-round-trip-differs", f"time-triggered plan {want} written as\n{text}and parsed back gives {got}", case)
+    kinds = [d is None for _, _, d in plan.timed_actions]
+    ctx.cls("tt:plan")
+    if len(tas) >= 2 and any(kinds) and not all(kinds):
+        ctx.cls("tt:mixed-durative-instantaneous")
+        ctx.nontriv(["tt", case["tproblem"], case["ttplan"]])
+
+
 def shard(ctx):
     ctx.shrink_budget = 40  # each call parses the PDDL text twice (~0.2 s)
 
@@ -157,7 +234,11 @@ def shard(ctx):
         check(ctx, case)
 
     ctx.run_hypothesis(cases(), oracle, ctx.scale(480, 8000))
+    ctx.shrink_budget = 300
+    ctx.run_hypothesis(tt_cases(), lambda case: check_tt_plan(ctx, case), ctx.scale(1600, 20000), salt=1)
 
 
 def replay(ctx, case):
+    if "tproblem" in case:
+        return check_tt_plan(ctx, case)
     check(ctx, case)
